@@ -472,6 +472,91 @@ def wide_reuse_probe(ctx, exe):
     return info, bad
 
 
+CFG_WITNESS = '''config { type RegisterAddressType = u8; }
+#[cfg(feature = "a")]
+register Ra {
+    const ADDRESS = 0;
+    const SIZE_BITS = 8;
+    xx: uint as enum En { Aa, Bb, Cc, Dd } = 0..2
+},
+#[cfg(not(feature = "a"))]
+register Rb {
+    const ADDRESS = 1;
+    const SIZE_BITS = 8;
+    yy: uint as try enum En { Aa } = 0..2
+},
+register Rc {
+    const ADDRESS = 2;
+    const SIZE_BITS = 8;
+    zz: uint as En = 0..2
+}
+'''
+
+
+def d18_open():
+    return [f for f in vlib.load_known_findings("C07") if f.get("id") == "D18"]
+
+
+def cfg_reuse_probe(ctx, exe):
+    """Defect D18 (found by this check): two generated enums of the same name under mutually exclusive cfgs; a third
+    field reuses the name.  The method choice looks the name up ignoring cfg, takes the first (Infallible) enum and
+    emits the unchecked getter; built WITHOUT feature "a" the only `En` is the fallible one -> unchecked unwrap of an
+    Err.  Model: Enum.getter_env (C07_cfg_reuse_refuted).  Data-driven on KNOWN_FINDINGS.jsonl (id D18, property C07)."""
+    is_open = bool(d18_open())
+    res = gen_common.run_gen(ctx, exe, [{"id": "p", "syntax": "dsl", "text": CFG_WITNESS, "name": "Dev", "want": ["pretty", "facts", "mir"]}], tag="cprobe")
+    r = res["p"]
+    fi = {"syntax": "dsl", "text": CFG_WITNESS, "build": "feature \"a\" disabled"}
+    if r.get("status") != "ok":
+        info = {"generator": gen_common.canon_status(r)}
+        if is_open:
+            return info, {"what": "D18 is listed open but the generator now rejects the witness (repaired?): set D18 to \"fixed\" in KNOWN_FINDINGS.jsonl",
+                          "failing_input": fi, "implementation": info["generator"]}, False
+        return info, None, False
+    on = [c.replace('\\"', '"') for c in re.findall(r'value: Some\(\s*"((?:[^"\\]|\\.)*)"', r["mir"]) if c.startswith("not")]
+    on_term = "[" + "; ".join(vlib.coq_string(c) for c in sorted(set(on))) + "]"
+    model = gen_common.eval_model(ctx, ["Enum"], f"c07_env_result {on_term}", [("p", gen_common.mir_term(r))], tag="cprobe_model")["p"]
+    mline = ([ln for ln in model.split("\n") if ln.startswith("Rc.zz ")] or [model])[0]
+    conv = [g["conv"] for fsx in r["facts"]["field_sets"] if fsx["name"] == "Rc" for g in fsx["getters"]][0]
+    blocks = []
+    for p in range(4):
+        show = "show_res(&fs.zz())" if conv == "try_into" else 'format!("{:?}", fs.zz())'
+        blocks.append(f'''    if {p} >= start && {p} < stop {{ println!("BEGIN {p}"); let fs = m0::field_sets::Rc::from([{p}u8]); println!("{p} {{}}", {show}); println!("END {p}"); }}''')
+    l2.write_crate(ctx, "c07cprobe", {"m0": r["pretty"]}, make_main(blocks), features=["a"])
+    ok, out = l2.build(ctx, "c07cprobe")
+    info = {"generator": "ok", "getter_conv": conv, "rustc_accepts": ok, "model": mline, "d18_status": "open" if is_open else "not open"}
+    if not ok:
+        l2.cleanup(ctx, "c07cprobe")
+        if is_open:
+            return info, {"what": "D18 is listed open but the witness no longer compiles (behaviour differs from the recorded one)", "failing_input": fi, "rustc": out[-800:]}, False
+        return info, None, False
+    by_site, crashes = run_driver(ctx, "c07cprobe", 4)
+    crashed = {s for s, _, _ in crashes}
+    pairs = []
+    for p in range(4):
+        if p in crashed or not by_site.get(p):
+            pairs.append((p, "UB"))
+        else:
+            pairs.append((p, tok(p, by_site[p][0].split(" ", 1)[1])))
+    table = rle(pairs)
+    info["getter_table"] = table
+    l2.cleanup(ctx, "c07cprobe")
+    impl_line = f"Rc.zz {conv}:En | {table}"
+    ub = bool(crashed)
+    if is_open:
+        if impl_line != mline:
+            return info, {"what": "cfg-reuse witness: compiled behaviour differs from the model of the unrepaired code (Enum.getter_env)" +
+                                  ("" if ub else " — no undefined behaviour any more: set D18 to \"fixed\" in KNOWN_FINDINGS.jsonl"),
+                          "failing_input": fi, "implementation": impl_line, "model": mline}, False
+        return info, None, ub
+    if ub:
+        first = min(crashed)
+        return info, {"what": "getter without Result reaches the unchecked unwrap of an Err (abort in the debug build = undefined behaviour): "
+                              "an enum generated on one field is reused by name on another while a same-named enum exists under another cfg",
+                      "failing_input": fi, "raw_value": first, "implementation": impl_line,
+                      "stderr": [c[2] for c in crashes][0][-500:]}, False
+    return info, None, False
+
+
 # ---------------------------------------------------------------- the check
 
 def run_batch(ctx, exe, defs, name, keep=False, depth=0):
@@ -606,7 +691,7 @@ def run(ctx):
         return
     rng = random.Random(ctx.seed)
     quick = ctx.tier == "quick"
-    ndefs, wmax, max_full = (70, 10, 8) if quick else (260, 16, 10)
+    ndefs, wmax, max_full = (130, 10, 8) if quick else (260, 16, 10)
     defs = []
     # fixed corner cases first: width 1, both fallbacks in both orders, catch-all first, permuted full coverage
     V = adef.mk_variant
@@ -624,7 +709,7 @@ def run(ctx):
         defs.append(gen_def(rng, wmax, max_full))
     distinct = {json.dumps([m["w"], m["base"], m["try"], m["vals"]]) for _, m in defs}
     nlines, violations, stats = 0, [], collections.Counter()
-    bsize = 70 if quick else 65
+    bsize = 65
     for b in range(0, len(defs), bsize):
         nl, viol, st = run_batch(ctx, exe, defs[b:b + bsize], f"c07b{b // bsize}")
         nlines += nl
@@ -636,6 +721,12 @@ def run(ctx):
     wprobe, bad = wide_reuse_probe(ctx, exe)
     if bad:
         violations.append(bad)
+    cprobe, bad, d18_seen = cfg_reuse_probe(ctx, exe)
+    if bad:
+        violations.append(bad)
+    if d18_seen:
+        vlib.known_finding(ctx, d18_open()[0], "getter `zz()` (no Result) aborts at unwrap_unchecked for bit patterns 1..3 when built without feature \"a\": "
+                           "a generated enum reused by name while a same-named enum exists under the opposite cfg; table " + cprobe["getter_table"])
     miri = {"ran": False, "why": "quick tier"}
     if not quick:
         miri, mv = miri_subset(ctx, exe, random.Random(ctx.seed + 9))
@@ -647,14 +738,20 @@ def run(ctx):
         vlib.violation(ctx, rep, no_input="failing_input" not in rep)
     elif not info["ok"]:
         vlib.violation(ctx, {"broken": info["reason"], "theorem": "props/C07.v"}, no_input=True)
+    chk = None
+    if not quick and info["ok"]:
+        okc, outc = vlib.coqchk("C07")
+        chk = outc.strip().splitlines()[-6:]
+        if not okc:
+            vlib.violation(ctx, {"broken": "coqchk rejected the compiled proofs", "detail": outc[-800:]}, no_input=True)
     ctx.log(f"definitions {len(defs)}, table lines compared {nlines}, raw values / bit patterns evaluated {stats['values']}, "
-            f"int-full-width probe {probe}, wide-reuse probe {wprobe}, miri {miri}")
+            f"int-full-width probe {probe}, wide-reuse probe {wprobe}, cfg-reuse probe {cprobe}, miri {miri}")
     sample = defs[len(defs) // 2]
     vlib.write_evidence(ctx, info, {
         "evaluations": int(stats["values"]), "distinct_nontrivial": len(distinct), "rule": RULE,
         "exhaustive": True, "exhaustive_what": "per definition: every raw value of the enum's field for From/TryFrom/Into and every bit pattern of every field with a conversion for the getter",
         "definitions": len(defs), "table_lines_compared": nlines, "input_distribution": {k: v for k, v in stats.items() if k != "values"},
-        "int_full_width_probe": probe, "wide_reuse_probe": wprobe, "miri": miri, "disagreements": len(violations),
+        "int_full_width_probe": probe, "wide_reuse_probe": wprobe, "cfg_reuse_probe": cprobe, "miri": miri, **({"coqchk": chk} if chk else {}), "disagreements": len(violations),
         "samples": [{"text": adef.render(sample[0], "dsl"), "meta": {k: (v if k != "vals" else v[:20]) for k, v in sample[1].items()}}]})
 
 
